@@ -377,6 +377,18 @@ func (c *fctx) rangeStmt() []*S {
 	}
 	mutExpr := d.pure(1).str(Mode{}) // drawn before the body: may only read what is in scope at the loop head
 	inner := d.stmts(1 + r.Intn(3))
+	if loop.Op == ":=" && valInt && loop.Name2 != "" && loop.Name2 != "_" && r.Chance(1, 5) {
+		// the VALUE variable is captured and then re-declared, at the top level of the body, by
+		// a ':=' that also declares another new variable; in half of the cases the body does
+		// not yield at all
+		id := c.g.id()
+		text := fmt.Sprintf("get%[1]d := func() int { return %[2]s }\n%[2]s, ok%[1]d := %[2]s+100, true\n_ = ok%[1]d\nvrt.E(%[3]d, get%[1]d(), %[2]s)", id, loop.Name2, c.g.nextTag())
+		if r.Bool() {
+			inner = nil
+		}
+		inner = append([]*S{{K: SRaw, ID: id, Src: text}}, inner...)
+		c.g.mark("range_value_variable_captured_then_redeclared_by_mixed_define")
+	}
 	// mutation of the ranged collection during the loop
 	if coll != "" && r.Chance(1, 2) {
 		var mut *S
